@@ -21,7 +21,7 @@ ANCHORS = ["State.__eq__", "Lanelet.__eq__", "Obstacle.__eq__", "Obstacle.__hash
            "TrafficSign.__eq__", "Intersection.__eq__"]
 REQUIRED = ["law.reflexive", "law.deepcopy", "law.symmetric", "law.twin", "law.perturbation", "law.hash-total",
             "law.hash-consistent", "defaults-instance", "law.kwargs-order", "law.cross-class-state", "law.optional-subsets", "law.derived-attribute-twin",
-            "coordinates-of-different-magnitude", "law.after-update_initial_state", "law.assembly-twin", "law.moved-after-compared",
+            "coordinates-of-different-magnitude", "law.after-update_initial_state", "law.assembly-twin", "law.moved-after-compared", "law.other-representation",
             "class.Polygon.large", "class.Lanelet.large"]
 ASSUMPTIONS = ["perturbations are clearly different valid values (never a reordering or a duplicate)",
                "real perturbations are >= 1e-6, i.e. far above the documented 1e-10 resolution"]
@@ -669,6 +669,38 @@ def run(ctx):
                             if ra[0] == "ok" and rb[0] == "ok" and ra[1] != rb[1]:
                                 V("moved-after-compared-still-equals-old-place", "compared-then-moved vs old: %s; "
                                   "moved twin vs old: %s" % (ra[1], rb[1]))
+        # L11 the same value in another REPRESENTATION (a single prediction id given as a one-element list, an integer-valued
+        # float, a numpy integer): the statement does not say whether such objects are equal -- but whatever == answers,
+        # it answers symmetrically, and equal objects hash equally
+        if not use_defaults:
+            import numpy as np_
+            rep = []
+            for p_, v_ in kw.items():
+                if name == "ScenarioID" and p_ == "prediction_id" and isinstance(v_, int):
+                    rep.append((p_, [v_]))
+                elif isinstance(v_, bool) or v_ is None:
+                    continue
+                elif isinstance(v_, int):
+                    rep.append((p_, float(v_)))
+                    rep.append((p_, np_.int64(v_)))
+                elif isinstance(v_, float) and v_ == int(v_) and abs(v_) < 2 ** 40:
+                    rep.append((p_, int(v_)))
+            for p_, alt in rep[:6]:
+                y11 = safe(lambda: make(mkgen())[0](**dict(make(mkgen())[1], **{p_: alt})))
+                if y11[0] != "ok":
+                    continue
+                ctx.feature("law.other-representation")
+                ctx.counter("law.other-representation.%s.%s" % (name, type(alt).__name__))
+                ctx.evaluation()
+                r = eq_ops(x, y11[1])
+                if r[0] == "exc":
+                    continue
+                if r[1][0] != r[1][1] or r[1][2] != r[1][3] or r[1][0] == r[1][2]:
+                    V("not-symmetric", "%s given as %r: (x==y, y==x, x!=y, y!=x) = %s" % (p_, alt, r[1],), p_)
+                elif r[1][0] and h[0] == "ok":
+                    h2 = safe(hash, y11[1])
+                    if h2[0] == "ok" and h2[1] != h[1]:
+                        V("equal-but-hash-differs", "%s given as %r (%s)" % (p_, alt, type(alt).__name__), p_)
         # L7 every optional argument on its own / left out on its own (one-sided combinations of optional arguments):
         # such objects are built through the public constructor too, so ==, hash and deepcopy must work on them
         if not use_defaults and k % 2 == 1:
